@@ -112,6 +112,7 @@ Thorough(x) ==
        /\ ((x.nll # "default" /\ Deviates(x, 1)) => RepPairing(x))
        /\ ((x.lazy_call /\ x.use_tf_function) => x.no_id_cached)
        /\ ~(x.lazy_call /\ x.float_shape)
+       /\ (x.nll \in {"cfit", "cfit_cached"} => x.float_shape)
        /\ ((x.lazy_call /\ x.nll # "default") => x.nll \in {"cached_int", "cached_amp"})
        /\ ((x.use_tf_function /\ x.nll # "default") => ~x.no_id_cached)
 
